@@ -196,6 +196,8 @@ func RunC11(ep *core.Episode) {
 
 	var caller *core.Task
 	caller = S.Go("caller", func() {
+		var heldResp *protocol.Response
+		var heldBody []byte
 		for i := 0; i < n && !ep.Failed(); i++ {
 			rq := genC11Req(tp, ep, i, e2e)
 			ex := &exch{rq: rq}
@@ -261,7 +263,21 @@ func RunC11(ep *core.Episode) {
 			if i > 0 {
 				ep.Probe("conn-reused")
 			}
+			// a Response stays the caller's until it is released: the one from the previous exchange is looked at again now
+			if heldResp != nil {
+				if !bytes.Equal(heldResp.Body(), heldBody) {
+					ep.Fail("C11.response", "exchange %d: the body of the response returned by exchange %d (%dB) changed while this exchange ran (first difference at %d)", i, i-1, len(heldBody), firstDiff(heldResp.Body(), heldBody))
+					return
+				}
+				protocol.ReleaseResponse(heldResp)
+				heldResp = nil
+				ep.Probe("held-response-rechecked")
+			}
 			protocol.ReleaseRequest(req)
+			if err == nil && !e2e && !resp.IsBodyStream() && !ep.Failed() {
+				heldResp, heldBody = resp, append([]byte(nil), resp.Body()...)
+				continue
+			}
 			protocol.ReleaseResponse(resp)
 		}
 	})
